@@ -1,23 +1,37 @@
 # bin/check configuration of property C05 (a single dict expression)
-{'assumptions': ['max >= 1 for every declaration (not enforced by validation: finding F17)',
-                 'EDI: no_root_repeat (known finding F14) and input ends with a segment terminator (known '
-                 'finding F8)'],
+{'assumptions': ['max >= 1 for every declaration (not enforced by validation: finding F17, max_zero_refuted)',
+                 'EDI documented behaviour only inside no_root_repeat (known finding F14; outside it the '
+                 'machine is proved equal to spec_repeat) and for input ending with a segment terminator '
+                 '(known finding F8)'],
  'harness': 'c05',
- 'models': ['Model/Hier.v', 'Model/HierSpec.v'],
+ 'models': ['Model/Hier.v', 'Model/HierSpec.v', 'Model/HierOcc.v'],
  'props': 'Props/C05.v',
- 'trusted': ['leaf matchers enter machine_eq_spec as a Section variable (any matcher that takes between 1 '
-             'and all of the remaining units); the csv2/fixedlength2 rows and header/footer matchers and the '
-             'EDI name matcher are instances',
-             'idr node linking is modelled as commit-on-completion (Model/Hier.v header); the delivered '
-             'subtrees are compared with the implementation on every case',
-             'tokenisation (lines, csv records, EDI segments) is outside this property: units are what the '
-             'tokenizers deliver',
-             'the FINAL_OUTPUT target filter enters filter_transparent as an arbitrary predicate on '
-             "completed instances; the correspondence uses the xpath .[not(.//f = 'X')] (antchfx/xpath, "
-             'trusted) over a flag column/element of every unit',
-             'EDI release-character handling belongs to the tokenizer (C07); here inputs with escaped '
-             'release characters and delimiters are fed through the real reader and every unit must be '
-             'consumed or reported, with its unescaped text',
-             'pattern cases: header/footer regular expressions are evaluated per raw line with Go '
-             'regexp.MatchString in the harness (not through the library); the model sees a unit as the bit '
-             'mask of the patterns its line matches (leaf LPat)']}
+ 'trusted': ['PROVED over the hand-transcribed model (Model/Hier.v): hstep/edi_step = the documented '
+             'recursive matcher (machine_eq_spec, edi_eq_spec_nested), EDI without any guard = the matcher '
+             'with the top-level sequence repeated (edi_eq_repeat_spec, edi_eq_spec_iff: exact '
+             'characterisation of finding F14), termination within run_fuel (hier_terminates, '
+             'edi_terminates), the target filter is transparent (filter_transparent, '
+             'edi_filter_transparent), units consumed strictly left to right (every_unit_consumed_or_error, '
+             'terminal_position)',
+             'PROVED over Model/HierLines.v (hand-transcribed readLine / MoreUnprocessedData / rows loop / '
+             'header-footer loop of the csv2 and fixedlength2 readers): the matcher sees exactly the '
+             'non-empty physical lines in order, read-ahead loses nothing, the header/footer loop computes '
+             'the declarative window (lines_more_unprocessed, lines_rows_refine, lines_header_footer_refine, '
+             'leaf_matchers_are_windows); this model is NOT run by check_case (its behaviour is compared '
+             'only through whole runs: blank lines, long inputs, directed buffer-refill inputs, '
+             'white-space-only lines)',
+             'EXTRACTED (harness/cmd/extract/gen_occurs.go -> coq/Gen/Occurs.v): default min / max and '
+             '"negative max = unbounded" of csv2, fixedlength2, EDI from the MinOccurs/MaxOccurs function '
+             "bodies; occurs_defaults is proved over the generated rules and every generated schema's "
+             'min/max as written is resolved by them in check_case (OC cases)',
+             'leaf matchers enter the machine theorems as a Section variable (any matcher taking between 1 '
+             'and all remaining units); header/footer regular expressions are evaluated per raw line with Go '
+             'regexp in the harness (not through the library) and reach the model as a bit mask per unit '
+             '(LPat)',
+             'idr node linking is modelled as commit-on-completion; delivered subtrees are compared with the '
+             'implementation on every case; the bufio copy discipline of fixedlength2 (linesBuf aliasing the '
+             'reader buffer) is compared only (long / directed inputs), not modelled',
+             'the FINAL_OUTPUT filter is an arbitrary predicate in filter_transparent; the correspondence '
+             "uses the xpath .[not(.//f = 'X')] (antchfx/xpath, trusted)",
+             'tokenisation (csv records, EDI segments, release characters) belongs to C06/C07; here such '
+             'inputs go through the real readers and every unit must be consumed or reported']}
